@@ -48,8 +48,18 @@ type FileCfg struct {
 	Imports   map[string]string `json:"imports"`    // import path replacement
 }
 
+// DirCfg: every non-test .go file of Dir that is not listed under files and imports "sync"
+// gets its sync import aliased as well, so that a lock added to any file of the package is a
+// scheduling point (a real mutex contended between two scheduler threads would hang the run).
+type DirCfg struct {
+	Dir     string   `json:"dir"`
+	Sync    bool     `json:"sync"`
+	Exclude []string `json:"exclude"`
+}
+
 type Cfg struct {
 	Files []FileCfg `json:"files"`
+	Dirs  []DirCfg  `json:"dirs"`
 }
 
 func main() {
@@ -66,6 +76,41 @@ func main() {
 		die(err)
 	}
 	result := map[string]string{}
+	listed := map[string]bool{}
+	for _, fc := range cfg.Files {
+		listed[filepath.Clean(fc.Path)] = true
+	}
+	for _, dc := range cfg.Dirs {
+		if !dc.Sync {
+			continue
+		}
+		ents, err := os.ReadDir(filepath.Join(*repo, dc.Dir))
+		if err != nil {
+			continue // the directory may not exist in this tree
+		}
+		for _, e := range ents {
+			n := e.Name()
+			if e.IsDir() || !strings.HasSuffix(n, ".go") || strings.HasSuffix(n, "_test.go") || strings.HasPrefix(n, "zz_verif") {
+				continue
+			}
+			rel := filepath.Join(dc.Dir, n)
+			skip := listed[rel]
+			for _, x := range dc.Exclude {
+				if x == n {
+					skip = true
+				}
+			}
+			if skip {
+				continue
+			}
+			src, err := os.ReadFile(filepath.Join(*repo, rel))
+			if err != nil || !strings.Contains(string(src), "\"sync\"") {
+				continue
+			}
+			cfg.Files = append(cfg.Files, FileCfg{Path: rel, Sync: true})
+			listed[rel] = true
+		}
+	}
 	for i, fc := range cfg.Files {
 		src := fc.Path
 		if !filepath.IsAbs(src) {
@@ -354,6 +399,16 @@ func (rw *rewriter) mentions(n ast.Node) string {
 				if v.Sel.Name == f {
 					found = f
 					return false
+				}
+			}
+			if id, ok := v.X.(*ast.Ident); ok {
+				// qualified form "recv.Field": only that receiver's field (a field name that is
+				// common, like Status, would otherwise match unrelated structs)
+				for _, f := range rw.fc.Touch {
+					if f == id.Name+"."+v.Sel.Name {
+						found = f
+						return false
+					}
 				}
 			}
 			if id, ok := v.X.(*ast.Ident); ok {
